@@ -108,15 +108,20 @@ class ControlEndpointEnv:
             "crc_start": i.data_crc.start, "crc_crc": i.data_crc.crc})
         ts = self.ts = c.unit(ce, ports)
         I, O = self.I, self.O = ts.inputs, ts.outputs
-        regs = {str(v): v for v in ts.state.values()}
+        # the endpoint's real children, found by class (whatever USBControlEndpoint.elaborate calls the submodules and in
+        # whatever order it creates them); their registers / FSMs are addressed through the instance (instance_reg, ...)
+        from luna.gateware.usb.usb2.request import USBSetupDecoder
+        from luna.gateware.usb.usb2.packet import USBDataPacketDeserializer
+        sdi = self.setup_decoder = ts.instance(USBSetupDecoder)
+        dhi = [x for x in ts.instances(USBDataPacketDeserializer) if within(ts, x, sdi)]
+        if len(dhi) != 1:
+            from hwv.extract import BindingError
+            raise BindingError(f"expected one USBDataPacketDeserializer inside the setup decoder, found {len(dhi)}")
 
         def sd(n):
-            """a register of the setup decoder, by the name of the flip-flop (signal paths are ambiguous: the decoder's
-            module also sees its deserializer's `length`)"""
-            from hwv.extract import BindingError
-            if "setup_decoder." + n not in regs:
-                raise BindingError(f"no register setup_decoder.{n}")
-            return regs["setup_decoder." + n]
+            """a register of the setup decoder, by the decoder's own name for the flip-flop (signal paths are ambiguous: the
+            decoder's module also sees its deserializer's `length`)"""
+            return instance_reg(ts, sdi, n)
         # ---- the setup request as reported by the setup decoder (SetupPacket interface)
         self.received = sd("received") == 1
         self.f_type, self.f_request, self.f_value = sd("type"), sd("request"), sd("value")
@@ -124,10 +129,10 @@ class ControlEndpointEnv:
         self.f_is_in = sd("is_in_request") == 1
         self.fields = [self.f_type, self.f_request, self.f_value, self.f_index, self.f_length, self.f_recipient,
                        sd("is_in_request")]
-        self.setup_ack = ts.sig("setup_decoder.ack") == 1
-        self.new_packet = sd("data_handler.new_packet") == 1
-        self.dec = ts.fsm("setup_decoder.fsm_state")
-        self.ctl = ts.fsm("fsm_state")
+        self.setup_ack = ts.of(sdi.ack) == 1
+        self.new_packet = instance_reg(ts, dhi[0], "new_packet") == 1
+        self.dec = instance_fsm(ts, sdi)
+        self.ctl = instance_fsm(ts, ce)
 
         # ---- token events (interface of the token detector; C01)
         new_token = self.new_token = I["tok_new_token"] == 1
@@ -210,8 +215,31 @@ class ControlEndpointEnv:
         c.inv("decoding_last_token_is_our_setup", z3.Implies(z3.Or(self.dec.is_("READ_DATA"), self.received),
                                                               z3.And(self.prev_ep == self.ep, self.prev_pid == spec.PID_SETUP)))
 
+    def handler(self):
+        """the real StandardRequestHandler instance of the endpoint (found by class)"""
+        from luna.gateware.usb.request.standard import StandardRequestHandler
+        return self.ts.instance(StandardRequestHandler)
+
     def handler_fsm(self):
-        return self.ts.fsm("StandardRequestHandler.fsm_state")
+        return instance_fsm(self.ts, self.handler())
+
+    def handler_child_fsm(self, is_transmitter):
+        """FSM of one of the StandardRequestHandler's two sub-units, by role: its constant-response transmitter is the
+        StreamSerializer it instantiates directly; its GET_DESCRIPTOR handler is its other direct child."""
+        from hwv.extract import BindingError
+        from luna.gateware.stream.generator import StreamSerializer
+        ts, h = self.ts, self.handler()
+        kids = {}
+        for obj in ts.design.elaboratables:
+            if type(obj).__module__.startswith("amaranth") or obj is h:
+                continue
+            if hier(ts, obj)[:-1] == hier(ts, h):
+                kids.setdefault(hier(ts, obj), obj)          # (an elaborate() returning another Elaboratable: one module)
+        pick = [o for o in kids.values() if isinstance(o, StreamSerializer) == is_transmitter]
+        if len(pick) != 1:
+            raise BindingError(f"StandardRequestHandler: expected one {'StreamSerializer' if is_transmitter else 'GET_DESCRIPTOR handler'} "
+                               f"child, found {[type(o).__name__ for o in pick]}")
+        return instance_fsm(ts, pick[0])
 
     def transfer_invariants(self):
         """(StandardRequestHandler configurations; used by C07 and C08)  Spec-side history `data_asked`, the PHY-progress
@@ -219,8 +247,8 @@ class ControlEndpointEnv:
         and stream generators to the current transfer."""
         c, ts, stage = self.c, self.ts, self.stage
         h = self.handler_fsm()
-        tx = self.tx_fsm = ts.fsm("StandardRequestHandler.transmitter.fsm_state")
-        gd = self.gd_fsm = ts.fsm("StandardRequestHandler.get_descriptor.fsm_state")
+        tx = self.tx_fsm = self.handler_child_fsm(is_transmitter=True)
+        gd = self.gd_fsm = self.handler_child_fsm(is_transmitter=False)
         current = z3.Not(self.received)
         std = self.f_type == TYPE_STANDARD
         # a data-stage IN token of the current transfer has been answerable
@@ -302,9 +330,9 @@ def make(cfg):
             c.inv("unimplemented_is_unhandled_until_answered",
                   z3.Implies(z3.And(current, unimpl), z3.If(env.answered == 1, h.is_("IDLE"), h.is_("UNHANDLED"))))
             c.inv("clear_feature_state", z3.Implies(z3.And(current, bad_clear), h.is_("CLEAR_FEATURE")))
-            if ts.has("StandardRequestHandler.clear_feature_status_sent"):
-                c.inv("bad_clear_feature_never_sends_status",
-                      z3.Implies(z3.And(current, bad_clear), ts.sig("StandardRequestHandler.clear_feature_status_sent") == 0))
+            status_sent = instance_path(ts, env.handler(), "clear_feature_status_sent")      # (incidental register: probed)
+            if ts.has(status_sent):
+                c.inv("bad_clear_feature_never_sends_status", z3.Implies(z3.And(current, bad_clear), ts.sig(status_sent) == 0))
             if cfg == "std_skip":
                 c.inv("skipped_is_idle", z3.Implies(z3.And(current, env.f_type == TYPE_STANDARD, unclaimed), h.is_("IDLE")))
 
@@ -567,6 +595,62 @@ def hier(ts, obj):
     return tuple(ts.design.fragments[ts.design.elaboratables[obj]].name[1:])
 
 
+# ---- "the registers / signals / FSM of instance X": addressed through the real child OBJECT (found by class or by role:
+#      ts.instance(Class), an attribute of the parent, whose ports are connected to what), never through the name the parent
+#      happens to give the submodule.  The module of an instance is identified in the netlist by hier(); a name below is the
+#      child's own (leaf-internal) Python-level signal name, which no refactoring of the parent can change.
+def within(ts, obj, parent):
+    """is the instance `obj` the instance `parent` itself or (transitively) one of its submodules?"""
+    h, p = hier(ts, obj), hier(ts, parent)
+    return h[:len(p)] == p
+
+
+def instance_regs(ts, obj, deep=False):
+    """[(own signal name or None, z3 state variable)] of every flip-flop in the module of the real sub-Elaboratable `obj`
+    (deep=True: and in the modules below it), in netlist (creation) order"""
+    from amaranth.hdl import _nir as nir
+    h = ("top",) + hier(ts, obj)
+    out = []
+    for key, var in ts.state.items():
+        if key[0] != 'ff':
+            continue
+        mod = tuple(ts.nl.modules[ts.nl.cells[key[1]].module_idx].name)
+        if mod == h or (deep and mod[:len(h)] == h):
+            sig = ts.ff_signal.get(key)
+            out.append((ts._strip(sig.name) if sig is not None else None, var))
+    return out
+
+
+def instance_path(ts, obj, name):
+    """hierarchical path of the signal `name` (the child's own name for it) inside the real sub-Elaboratable `obj`"""
+    return ".".join(hier(ts, obj) + (name,))
+
+
+def instance_sig(ts, obj, name):
+    return ts.sig(instance_path(ts, obj, name))
+
+
+def instance_fsm(ts, obj, name="fsm_state"):
+    return ts.fsm(instance_path(ts, obj, name))
+
+
+def instance_reg(ts, obj, name, width=None):
+    """state variable of the flip-flop the child `obj` itself calls `name`.  If the child no longer has a register of that
+    name but holds exactly one flip-flop of `width` bits, that one is meant (recorded as a followed rename: the contract is
+    then degraded, see DESIGN §11.7)."""
+    from hwv.extract import BindingError
+    regs = instance_regs(ts, obj)
+    hit = [v for n, v in regs if n == name]
+    if len(hit) == 1:
+        return hit[0]
+    if not hit and width is not None:
+        alt = [(n, v) for n, v in regs if v.size() == width]
+        if len(alt) == 1:
+            ts.rebound.append(f"{instance_path(ts, obj, name)} -> {alt[0][1]} (the only {width}-bit register of that {type(obj).__name__})")
+            return alt[0][1]
+    raise BindingError(f"no register {name!r} in the {type(obj).__name__} instance at {'.'.join(hier(ts, obj)) or 'top'} (has {[n for n, _ in regs]})")
+
+
 def control_endpoint_obligations(c, ts, ce, ep, groups, handlers=()):
     """Wiring of the real `USBControlEndpoint` `ce` inside the netlist `ts` (the endpoint alone, or a device containing it).
     groups ⊆ {"setup_decoder", "request_interface", "commit", "handlers"}; `handlers`: [(name, real handler object)]."""
@@ -701,6 +785,134 @@ def make_control_endpoint_wiring(composition, groups, ep=0):
     return contract
 
 
+# ======================================================================================================================
+#  Caller-side "parameter plumbing": the request handler a parent builds IS the configuration the leaf contracts verify.
+#
+#  USBDevice.add_standard_control_endpoint(descriptors, **kw) and USBControlEndpoint.add_standard_request_handlers(
+#  descriptors, **kw) hand their keyword arguments (skiplist / blacklist / avoid_blockram) and the endpoint's max_packet_size
+#  to StandardRequestHandler.  The leaf proofs (C07/C08/C09/C10/C14) are about handlers constructed directly with those
+#  parameters.  `instance_is_unit` states, on the netlist of the real parent, that the StandardRequestHandler instance its
+#  elaborate() created has the same registers (names, widths, reset values) and -- with the reference's registers / ports
+#  replaced by the instance's -- the same next-state and output functions as a reference StandardRequestHandler(descriptors,
+#  <the parameters the parent was given>) elaborated on its own.  A dropped / defaulted / swapped parameter changes the
+#  instance's functions (claim, FSM dispatch, packet length, start_position stride, handler variant) and refutes a lemma.
+# ======================================================================================================================
+def request_handler_ports(h):
+    """(inputs, outputs): flat name -> Signal of a request handler's RequestHandlerInterface, by documented direction"""
+    x = h.interface
+    ins, outs = {}, {}
+    for g in rhi_groups(x, RHI_TO_HANDLER_GROUPS).values():
+        ins.update(g)
+    for g in rhi_groups(x, RHI_FROM_HANDLER_GROUPS).values():
+        outs.update(g)
+    f = flat(x)
+    ins["tx_ready"] = f["tx_ready"]
+    outs["claim"] = f["claim"]
+    return ins, outs
+
+
+def _unit_registers(t, path):
+    """relative name -> [state keys] of the registers below module path `path` ('' = the whole netlist).  ROM read-port
+    registers have no signal name: they are named by their module and their ordinal within it."""
+    from collections import defaultdict
+    out, nth = defaultdict(list), defaultdict(int)
+    want = tuple(path.split(".")) if path else ()
+    for k, v in t.state.items():
+        if k[0] == "rp":
+            mod = tuple(t.nl.modules[t.nl.cells[k[1]].module_idx].name[1:])
+            if mod[:len(want)] != want:
+                continue
+            rel = ".".join(mod[len(want):])
+            nth[rel] += 1
+            out[f"{rel}.<read port {nth[rel]}>"].append(k)
+            continue
+        name = t._strip(str(v))[len(t.prefix):]
+        if not path:
+            out[name].append(k)
+        elif name.startswith(path + "."):
+            out[name[len(path) + 1:]].append(k)
+    return dict(out)
+
+
+def instance_is_unit(c, ts, inst, ref, ports_of, label, clause):
+    """Call obligation for a parameterised sub-unit (see the banner above).  inst: the real instance inside `ts`;
+    ref: the same class constructed with the contracted parameters; ports_of(obj) -> (inputs, outputs) name -> Signal."""
+    from hwv.extract import TS, BindingError
+    rin, rout = ports_of(ref)
+    iin, iout = ports_of(inst)
+    rports = {f"i_{n}": x for n, x in rin.items()}
+    rports.update({f"o_{n}": x for n, x in rout.items()})
+    tr = TS(ref, rports, prefix=label + ".")
+    path = ".".join(hier(ts, inst))
+    c.functions.append(f"{type(ref).__module__}.{type(ref).__qualname__}.elaborate (reference configuration for the instance at {path})")
+    sub = []
+    for n, x in iin.items():
+        if f"i_{n}" in tr.inputs:
+            try:
+                sub.append((tr.inputs[f"i_{n}"], ts.of(x)))
+            except BindingError:          # nothing in the parent reads or drives it (then the unit does not read it either)
+                pass
+    for n, v in tr.inputs.items():        # clock / reset inputs of the domain: the parent's
+        if not n.startswith("i_") and n in ts.inputs:
+            sub.append((v, ts.inputs[n]))
+    mine, theirs = _unit_registers(ts, path), _unit_registers(tr, "")
+    shape = lambda t, r: {n: [(t.state[k].sort().kind(), t.state[k].size() if z3.is_bv(t.state[k]) else 0, str(t.init[k])) for k in ks]
+                          for n, ks in r.items()}
+    ok = bool(mine) and shape(ts, mine) == shape(tr, theirs)
+    diff = sorted(set(mine) ^ set(theirs))[:6]
+    c.lemma(f"{label}_instance_has_the_registers_of_the_contracted_configuration", z3.BoolVal(ok),
+            clause=clause + " (same registers, widths and reset values" + (f"; differing: {diff}" if diff else "") + ")")
+    if not ok:
+        return tr
+    pairs = [(km, kt) for n in sorted(mine) for km, kt in zip(mine[n], theirs[n])]
+    sub += [(tr.state[kt], ts.state[km]) for km, kt in pairs]
+    c.lemma(f"{label}_next_state_functions_are_the_contracted_ones",
+            z3.And(*[ts.next[km] == z3.substitute(tr.next[kt], *sub) for km, kt in pairs]), clause=clause)
+    outs = []
+    for n, x in iout.items():
+        if f"o_{n}" in tr.outputs:
+            try:
+                outs.append(ts.of(x) == z3.substitute(tr.outputs[f"o_{n}"], *sub))
+            except BindingError:          # an output nothing in the parent looks at
+                pass
+    c.lemma(f"{label}_output_functions_are_the_contracted_ones", z3.And(*outs), clause=clause)
+    return tr
+
+
+SKIP_GET_STATUS = (lambda setup: setup.request == REQ_GET_STATUS,)
+
+
+def make_handler_plumbing(via, kwargs, ref_kwargs, descriptors=small_descriptors, max_packet_size=64, what=""):
+    """The StandardRequestHandler inside the real parent
+         via="endpoint": USBControlEndpoint(utmi, max_packet_size=max_packet_size).add_standard_request_handlers(d, **kwargs)
+         via="device"  : USBDevice(bus=utmi).add_standard_control_endpoint(d, **kwargs)         [EP0 size: the default, 64]
+       is StandardRequestHandler(d, max_packet_size=max_packet_size, **ref_kwargs)."""
+    def contract(c):
+        import warnings
+        from luna.gateware.usb.request.standard import StandardRequestHandler
+        utmi = UTMIInterface()
+        with warnings.catch_warnings():
+            warnings.simplefilter("ignore", DeprecationWarning)
+            if via == "endpoint":
+                top = USBControlEndpoint(utmi=utmi, max_packet_size=max_packet_size)
+                top.add_standard_request_handlers(descriptors(), **kwargs)
+                ports = control_endpoint_ports(top)
+            else:
+                from luna.gateware.usb.usb2.device import USBDevice
+                top = USBDevice(bus=utmi)
+                top.add_standard_control_endpoint(descriptors(), **kwargs)
+                ports = {n_: getattr(utmi, n_) for n_ in ("rx_data", "rx_active", "rx_valid", "tx_ready", "line_state", "session_end")}
+                ports.update(connect=top.connect, low_speed_only=top.low_speed_only, full_speed_only=top.full_speed_only)
+            ref = StandardRequestHandler(descriptors(), max_packet_size=max_packet_size, **ref_kwargs)
+        ts = c.unit(top, ports)
+        srh = ts.instance(StandardRequestHandler)
+        instance_is_unit(c, ts, srh, ref, request_handler_ports, "std_ref",
+                         clause=what or f"the parent's parameters reach the standard request handler: the instance is "
+                                        f"StandardRequestHandler(descriptors, max_packet_size={max_packet_size}, {', '.join(ref_kwargs)})")
+        c.cosim_cycles = 8
+    return contract
+
+
 def contracts(tier):
     yield ("USBControlEndpoint", "standard", make("standard"))
     yield ("USBControlEndpoint", "nohandler", make("nohandler"))
@@ -708,3 +920,13 @@ def contracts(tier):
     yield ("USBRequestHandlerMultiplexer", "two_handlers", mux_contract)
     yield ("USBRequestHandlerMultiplexer", "wiring_3_handlers", make_mux_wiring(3, own_fallback=False))
     yield ("USBRequestHandlerMultiplexer", "wiring_2_handlers_given_fallback", make_mux_wiring(2, own_fallback=True))
+    # caller side: the keyword arguments of the convenience constructors reach the handler (skip-listed requests are the
+    # fallback's to STALL only if the skiplist really arrives)
+    yield ("USBControlEndpoint", "plumbing_blacklist_is_skiplist",
+           make_handler_plumbing("endpoint", {"blacklist": SKIP_GET_STATUS}, {"skiplist": SKIP_GET_STATUS}, what=
+                                 "a skip-listed request is not claimed: the deprecated `blacklist` keyword of add_standard_request_handlers "
+                                 "reaches the handler as its skiplist"))
+    yield ("USBDevice", "plumbing_skiplist_reaches_handler",
+           make_handler_plumbing("device", {"skiplist": SKIP_GET_STATUS, "avoid_blockram": True}, {"skiplist": SKIP_GET_STATUS, "avoid_blockram": True},
+                                 what="a skip-listed request is not claimed: USBDevice.add_standard_control_endpoint(descriptors, skiplist=..., "
+                                      "avoid_blockram=...) builds StandardRequestHandler(descriptors, max_packet_size=64, skiplist=..., avoid_blockram=...)"))
